@@ -165,10 +165,15 @@ InsertField(i, n, t) ==         \* at position 0 of the own fields
   /\ nops' = nops + 1 /\ last' = <<"InsertField", i, n, t>>
   /\ view' = [j \in Ids |-> Proj(pool', j)]
 
+\* ---- publication: the model is used in the signature of a service of a NEW application.  Building the interface gives
+\* names to anonymous types in place; it derives nothing and changes no projection.  What it may rename is the
+\* published model's own anonymous parts - never a part of a model it does not contain (NamesFrame in TraceModel)
+Publish(i) == /\ nops < MaxOps /\ nops' = nops + 1 /\ last' = <<"Publish", i>> /\ UNCHANGED <<pool, view>>
+
 Next == \E i \in Ids :
           \/ \E kw \in KW : CustPrim(i, kw) \/ Customize(i, kw) \/ ChildAttrsAll(i, kw)
           \/ \E kw \in KW, f \in FieldNames : ChildAttrs(i, f, kw)
-          \/ ArrayOf(i) \/ Mandatory(i)
+          \/ ArrayOf(i) \/ Mandatory(i) \/ Publish(i)
           \/ \E t \in {1, 2} : Subclass(i, "x", t) \/ AppendField(i, "y", t) \/ InsertField(i, "y", t)
 Spec == Init /\ [][Next]_vars
 
@@ -183,8 +188,16 @@ Frame == [][\A j \in Ids :
               Proj(pool', j) # Proj(pool, j) =>
                  /\ last'[1] \in {"AppendField", "InsertField"}
                  /\ j \in MayChange(last'[2])]_vars
+\* the models publishing model i may give names to: i itself, the type an array was built over, and - since a variant
+\* shares its anonymous ancestry with the other variants of its root - the models of the same family as those
+\* (all classes; primitives / arrays with the same root).  NOT: another array over the same type, an unrelated class.
+RootIn(p, j) == IF p[j].orig = 0 THEN j ELSE p[j].orig
+SameFamily(p, a, b) == a = b \/ (p[a].kind = "cls" /\ p[b].kind = "cls")
+                       \/ (p[a].kind = p[b].kind /\ p[a].kind \in {"prim", "arr"} /\ RootIn(p, a) = RootIn(p, b))
+PartsOf(p, i) == IF p[i].of = 0 THEN {} ELSE {p[i].of}
+Lineage(p, i) == {j \in 1..Len(p) : SameFamily(p, i, j) \/ \E q \in PartsOf(p, i) : SameFamily(p, q, j)}
 \* a derivation adds one model carrying exactly the requested constraint
-DerivesOne == [][last'[1] \notin {"AppendField", "InsertField"} => Len(pool') = Len(pool) + 1]_vars
+DerivesOne == [][last'[1] \notin {"AppendField", "InsertField", "Publish"} => Len(pool') = Len(pool) + 1]_vars
 Requested == [][last'[1] \in {"CustPrim", "Customize"} =>
                  pool'[Len(pool')].attrs = Apply(pool[last'[2]].attrs, last'[3])]_vars
 \* parents first, declaration order: the flat list of a subclass starts with its parent's
